@@ -8,7 +8,7 @@ TYPES = ["connectrpc.conformance.v1.Header", "google.rpc.ErrorInfo", "google.pro
          "acme.v1.NotRegistered", "x", ""]                                                            # not registered
 URL_PREFIXES = [PREFIX, PREFIX, PREFIX, "", "example.com/", "example.com/a/b/", "/", "type.googleapis.com//"]
 MESSAGES = [None, b"", b"oops", b"with space and 100% sign", "grüß dich ☃".encode(), b"\xff\xfe invalid utf8 \xc3",
-            b"line\nbreak\ttab\x00nul", b"%41%zz%", b"~}|{ !"]
+            b"line\nbreak\ttab\x00nul", b"%41%zz%", b"~}|{ !", b" padded \t"]
 CODES_EXTRA = [0, 17, 18, 100, -1, 2147483647, -2147483648]
 
 
@@ -160,7 +160,8 @@ class C18(Prop):
             return b"".join(unknown_field(rng) for _ in range(rng.randint(1, 2))) if rng.random() < p_unknown else b""
 
         def word():
-            return "".join(rng.choice("abcXYZ-/ ") for _ in range(rng.randint(0, 6)))
+            n = rng.randint(300, 900) if rng.random() < 0.04 else rng.randint(0, 6)     # a few messages beyond 512 bytes
+            return "".join(rng.choice("abcXYZ-/ ") for _ in range(n))
 
         def leaf():
             return [word(), unk(), []]
